@@ -147,6 +147,7 @@ let rec model_of p = match p with
   | "C08" -> c08_model
   | "C20" -> c20_run false
   | "C16" -> C16.model
+  | "C15" -> C15.model
   | "C04" | "C05" | "C12" | "C09" | "C10" -> Rp.model
   | "C13" -> (fun c -> match c with
       | L (A "rp" :: _) -> (match Rp.model c with L [A "regpanic"] -> L [A "reg"; A "panic"] | _ -> L [A "reg"; A "ok"])
@@ -160,6 +161,7 @@ let judge_of = function
   | "C08" -> c08_judge
   | "C20" -> c20_judge
   | "C16" -> C16.judge
+  | "C15" -> C15.judge
   | "C12" -> Rp.c12_judge
   | "C04" -> Rp.c04_judge
   | "C05" -> Rp.c05_judge
